@@ -135,19 +135,22 @@ class XbarBackend:
                 self.submodules.controller = LiteDRAMController(ps, mod.geom_settings, mod.timing_settings, clk,
                                                                 controller_settings=ControllerSettings(**ctrl))
                 self.submodules.crossbar = LiteDRAMCrossbar(self.controller.interface)
-                self.user = self.crossbar.get_port(mode=mode, clock_domain="user")
+                kw = dict(data_width=sc["user_dw"]) if sc.get("user_dw") else {}
+                self.user = self.crossbar.get_port(mode=mode, clock_domain="user", **kw)
                 self.mem = self.crossbar.masters[0]
                 self.dfi = self.controller.dfi
         self.top = Top()
         self.ps = ps
         self.store = {}
         self.outstanding = 0          # maintained by the memory-side recorder
-        self.dw = self.top.user.data_width
+        self.dw = self.top.user.data_width                      # user-side width (stimulus)
+        self.cdw = self.top.controller.interface.data_width      # controller / DFI width (responder)
+        self.converted = self.dw != self.cdw                     # get_port(clock_domain=..., data_width=...): crossing + width converter
         self.rnd = random.Random(sc.get("seed", 0) * 7919 + 1)
 
     def initword(self, key):
         import zlib
-        return random.Random(zlib.crc32(repr(key).encode())).getrandbits(self.dw)
+        return random.Random(zlib.crc32(repr(key).encode())).getrandbits(self.cdw)
 
     def changed(self):
         return sum(1 for k, v in self.store.items() if v != self.initword(k))
@@ -155,7 +158,7 @@ class XbarBackend:
     def process(self):
         dfi, ps = self.top.dfi, self.ps
         nph, rl, wl = ps.nphases, ps.read_latency, ps.write_latency
-        dw = self.dw
+        dw = self.cdw
         nb, phw = dw // 8, dw // nph
         nranks = ps.nranks
         openrow = {}
@@ -270,6 +273,9 @@ def run_cdc(sc, lock_edges=0):
     strict = sc.get("strict", True)
     wlead = sc.get("wlead", 0)
     plan = gen_plan(sc, seed)
+    conv = xb is not None and xb.converted
+    if conv:
+        lock_edges = 0
     mo = sc.get("max_outstanding", 6)
     if xb is not None:
         strict = True
@@ -324,14 +330,18 @@ def run_cdc(sc, lock_edges=0):
         while True:
             s = yield from sample(memp)
             t = ref.now
-            if s["rv"] and s["rr"]:
+            if conv:
+                pass                  # converted port: the two sides are not word-for-word comparable; user-side memory semantics only
+            elif s["rv"] and s["rr"]:
                 events.append((t, 3, dict(c="RDATA", s="m", d=tobytes(s["rd"], nb), t=t, uc=state["ucycles"])))
             elif s["rv"] and strict and state["ndrop"] < 40:         # (the first 40 are evidence enough)
                 state["ndrop"] += 1
                 events.append((t, 7, dict(c="RDROP", s="m", t=t, uc=state["ucycles"])))
-            if s["cv"] and s["cr"]:
+            if s["cv"] and s["cr"] and not conv:
                 events.append((t, 4, dict(c="CMD", s="m", we=bool(s["cwe"]), a=s["ca"], last=s["cl"], t=t, uc=state["ucycles"])))
-            if s["wv"] and s["wr"]:
+            if conv:
+                pass
+            elif s["wv"] and s["wr"]:
                 events.append((t, 5, dict(c="WDATA", s="m", d=tobytes(s["wd"], nb), m=[(s["wm"] >> j) & 1 for j in range(nb)], t=t, uc=state["ucycles"])))
             elif s["wr"] and strict and state["ndrop"] < 40:
                 state["ndrop"] += 1
@@ -464,8 +474,10 @@ def run_cdc(sc, lock_edges=0):
     cdcsim.run(top, gens, clocks, ref=ref, schedule=sched)
     events.sort(key=lambda e: (e[0], e[1]))
     evs = [e[2] for e in events]
-    evs.append(dict(c="DUMP", n=mem.changed(), t=ref.now))
-    evs.append(dict(c="END", t=ref.now, planned=(len(plan) if not sc.get("replay") else 0)))
+    if not conv:
+        evs.append(dict(c="DUMP", n=mem.changed(), t=ref.now))
+    evs.append(dict(c="END", t=ref.now, planned=(len(plan) if not sc.get("replay") else 0),
+                    accepted=sum(1 for e in evs if e["c"] == "CMD" and e.get("s") == "u")))
     for e in evs:
         e.setdefault("uc", state["ucycles"])
     exact = depths.pop("exact", True)
